@@ -1,5 +1,9 @@
 import Nri.Model.LibMem
 import Nri.Proofs.LibMem
+import Nri.Proofs.LibMemInv
+import Nri.Proofs.LibMemTrack
+import Nri.Proofs.LibMemUpd
+import Nri.Props.C06
 import Nri.Gen.LibmemFacts
 /-!
 C07 — placement rules.  What is proved here (for every node set, request list and history
@@ -223,5 +227,150 @@ theorem every_set_fits_refuted :
 
 /-- every priority the overcommit handler may move is strictly below `Reservation` (32767). -/
 theorem reservations_not_eligible : ∀ p ∈ Nri.Gen.LibMem.allowedPrios, p < 32767 := by decide
+
+
+/-! ### histories: monotone moves, immovable reservations, normal memory, re-allocation keeps nodes
+
+The per-operation facts above are lifted to arbitrary histories of `Allocate`, `GetOffer`,
+`Realloc` and `Release` (every interleaving, successful or failing).  `Commit` is covered
+through `commit_fresh_eq_allocate`-style correspondence only (an offer object is caller-held
+data; the model's `Commit` replays whatever it is given), see the level note. -/
+
+inductive Op where
+  | allocate (r : Req)
+  | getOffer (r : Req)
+  | realloc (id : String) (nodes : Mask) (types : Nat)
+  | release (id : String)
+
+def St.step (s : St) : Op → St
+  | .allocate r => (s.Allocate r).1
+  | .getOffer r => (s.GetOffer r).1
+  | .realloc id nodes types => (s.Realloc id nodes types).1
+  | .release id => (s.Release id).1
+
+def St.run (s : St) (ops : List Op) : St := ops.foldl St.step s
+
+/-- the history invariant: no transaction open, unique ids, every request placed on a zone
+that contains a node with normal (non-movable) memory. -/
+structure HInv (s : St) : Prop where
+  wf : WF s
+  placed : Placed s
+
+theorem hinv_init (nodes : List Node) : HInv { nodes := nodes } :=
+  ⟨⟨rfl, by simp⟩, by intro q hq; cases hq⟩
+
+theorem placed_of_reqs_eq (s s' : St) (hp : Placed s) (hr : s'.reqs = s.reqs) (hn : s'.nodes = s.nodes) : Placed s' := by
+  intro q hq
+  rw [hr] at hq
+  rw [normalMask_of_nodes _ _ hn]
+  exact hp q hq
+
+/-- one operation, whatever its outcome: the invariant is kept, every request that is still
+there has all the nodes it had (**existing allocations are only ever moved to supersets**;
+for the re-allocated request: **re-allocation never removes nodes**), and a request of
+Reservation priority other than the one being re-allocated keeps exactly its zone
+(**reservations are never moved**). -/
+theorem step_placement (s : St) (h : HInv s) (op : Op) :
+    HInv (s.step op) ∧
+    (∀ q ∈ (s.step op).reqs, msub (zoneIn s q.id) q.zone = true) ∧
+    (∀ q ∈ (s.step op).reqs, 32766 < q.prio → (∀ id n t, op = .realloc id n t → q.id ≠ id) →
+        (s.req? q.id).isSome → q.zone = zoneIn s q.id) := by
+  have hnd : IdsNodup s := h.wf.ids
+  have same : ∀ s' : St, s'.reqs = s.reqs →
+      (∀ q ∈ s'.reqs, msub (zoneIn s q.id) q.zone = true) ∧
+      (∀ q ∈ s'.reqs, 32766 < q.prio → (∀ id n t, op = .realloc id n t → q.id ≠ id) →
+        (s.req? q.id).isSome → q.zone = zoneIn s q.id) := by
+    intro s' hr
+    refine ⟨?_, ?_⟩
+    · intro q hq; rw [hr] at hq; rw [zoneIn_of_mem s hnd q hq]; exact msub_refl _
+    · intro q hq _ _ _; rw [hr] at hq; exact (zoneIn_of_mem s hnd q hq).symm
+  cases op with
+  | allocate r =>
+    show HInv (s.Allocate r).1 ∧ _
+    cases hres : (s.Allocate r).2 with
+    | error e =>
+      obtain ⟨h1, _, _⟩ := allocate_fail_unchanged s h.wf r e hres
+      exact ⟨⟨allocate_wf s h.wf r, placed_of_reqs_eq s _ h.placed h1 (Allocate_nodes s h.wf r)⟩, same _ h1⟩
+    | ok res =>
+      obtain ⟨a, b, c⟩ := Allocate_placement s h.wf h.placed r res hres
+      refine ⟨⟨allocate_wf s h.wf r, c⟩, a, ?_⟩
+      intro q hq hp _ hsome
+      apply b q hq hp
+      -- the new request was unknown before
+      intro e
+      obtain ⟨r', ha, _, _⟩ := Allocate_ok_shape s r res hres
+      obtain ⟨hnone, _, hid, _⟩ := allocate_ok_eq s r r' ha
+      rw [e, ← hid, hnone] at hsome
+      cases hsome
+  | getOffer r =>
+    show HInv (s.GetOffer r).1 ∧ _
+    obtain ⟨h1, _, h3⟩ := getOffer_pure s h.wf r
+    exact ⟨⟨⟨h3, by rw [h1]; exact h.wf.ids⟩, placed_of_reqs_eq s _ h.placed h1 (GetOffer_nodes s h.wf r)⟩, same _ h1⟩
+  | realloc id nodes types =>
+    show HInv (s.Realloc id nodes types).1 ∧ _
+    cases hres : (s.Realloc id nodes types).2 with
+    | error e =>
+      obtain ⟨h1, _, _⟩ := realloc_spec s h.wf id nodes types e hres
+      exact ⟨⟨realloc_wf s h.wf id nodes types, placed_of_reqs_eq s _ h.placed h1 (Realloc_nodes s h.wf id nodes types)⟩, same _ h1⟩
+    | ok res =>
+      obtain ⟨a, b, c⟩ := Realloc_placement s h.wf h.placed id nodes types res hres
+      refine ⟨⟨realloc_wf s h.wf id nodes types, c⟩, a, ?_⟩
+      intro q hq hp hne _
+      exact b q hq hp (hne id nodes types rfl)
+  | release id =>
+    show HInv (s.Release id).1 ∧ _
+    cases hres : (s.Release id).2 with
+    | error e =>
+      have hsame : (s.Release id).1 = s := by
+        unfold St.Release at hres ⊢
+        cases hr : s.req? id with
+        | none => rfl
+        | some r =>
+          simp only [hr] at hres ⊢
+          split
+          · rfl
+          · rename_i hz; simp [hz] at hres
+      exact ⟨by rw [hsame]; exact h, same _ (by show (s.Release id).1.reqs = s.reqs; rw [hsame])⟩
+    | ok u =>
+      obtain ⟨h1, _⟩ := release_ok s id hres
+      have hsub : ∀ q ∈ (s.Release id).1.reqs, q ∈ s.reqs := by
+        intro q hq; rw [h1] at hq; exact (List.mem_filter.1 hq).1
+      refine ⟨⟨release_wf s h.wf id, ?_⟩, ?_, ?_⟩
+      · intro q hq
+        rw [normalMask_of_nodes _ _ (Release_nodes s id)]
+        exact h.placed q (hsub q hq)
+      · intro q hq; rw [zoneIn_of_mem s hnd q (hsub q hq)]; exact msub_refl _
+      · intro q hq _ _ _; exact (zoneIn_of_mem s hnd q (hsub q hq)).symm
+
+/-- **every history**: the invariant holds after any sequence of operations from the empty
+allocator - in particular every assigned zone always contains a node with normal memory. -/
+theorem run_placement (nodes : List Node) (ops : List Op) : HInv (St.run { nodes := nodes } ops) := by
+  unfold St.run
+  exact foldl_inv HInv St.step (fun a x h => (step_placement a h x).1) ops _ (hinv_init nodes)
+
+-- non-vacuity: a 2-node allocator, a reservation and a burstable request; the second allocation
+-- moves the burstable one to the wider zone, the reservation stays
+example : (St.run { nodes := exampleSt.nodes }
+    [.allocate { id := "res", size := 60, aff := 1, types := 0, strict := false, prio := 32767, created := 1 },
+     .allocate { id := "b", size := 30, aff := 1, types := 0, strict := false, prio := 1024, created := 2 },
+     .allocate { id := "g", size := 30, aff := 1, types := 0, strict := false, prio := 16384, created := 3 }]).reqs.map (fun q => (q.id, q.zone))
+    = [("res", 1), ("b", 3), ("g", 1)] := by rfl
+
+/-- **re-allocation never removes nodes**: after a successful `Realloc` the re-allocated request
+holds every node it held before. -/
+theorem realloc_never_shrinks (s : St) (h : HInv s) (id : String) (nodes : Mask) (types : Nat) (res : Result)
+    (hok : (s.Realloc id nodes types).2 = .ok res) :
+    ∀ q ∈ (s.Realloc id nodes types).1.reqs, q.id = id → msub (zoneIn s id) q.zone = true := by
+  intro q hq e
+  have := (Realloc_placement s h.wf h.placed id nodes types res hok).1 q hq
+  rw [e] at this; exact this
+
+/-- **exact updates**: the update map a successful `Allocate` returns maps `id` to `z` exactly when
+`id` is another request whose zone is now `z` and was something else before. -/
+theorem allocate_updates_exact (s : St) (h : HInv s) (r : Req) (res : Result)
+    (hok : (s.Allocate r).2 = .ok res) (id : String) (z : Mask) :
+    alGet res.updates id = some z ↔
+      (id ≠ r.id ∧ ∃ q ∈ (s.Allocate r).1.reqs, q.id = id ∧ q.zone = z ∧ z ≠ zoneIn s id) :=
+  Allocate_updates_exact s h.wf h.placed r res hok id z
 
 end Nri.LibMem
